@@ -83,7 +83,12 @@ func (k Keeper) UpdateParams(
 		)
 		nextParams.AssetIDs = prevParams.AssetIDs
 	}
-	if nextParams.MinSelfDelegation.IsNil() || nextParams.MinSelfDelegation.IsNegative() {
+	// the value is handed on as uint64 (x/avs, below) and read back as int64 in every BeginBlock
+	// (x/operator ValidatorByConsAddrForChainID: TruncateInt64): anything outside [0, MaxInt64]
+	// would panic in x/gov's EndBlocker (which runs this handler without recover) or in every
+	// later BeginBlock. Treat it like the other unusable values.
+	if nextParams.MinSelfDelegation.IsNil() || nextParams.MinSelfDelegation.IsNegative() ||
+		!nextParams.MinSelfDelegation.IsInt64() {
 		logger.Info(
 			"UpdateParams",
 			"overriding MinSelfDelegation with value", prevParams.MinSelfDelegation,
